@@ -120,53 +120,80 @@ theorem any_nonws_default (l : List FNode) (a b : Bool) :
   rw [h1, h1, this]
 
 
-theorem revdrop_codes (l : List FNode) :
-    (l.map wsCode).dropLast.reverse.dropWhile (· == 0) = ((dropTrailingWs l.dropLast).reverse).map wsCode := by
-  unfold dropTrailingWs
-  rw [List.reverse_reverse, ← List.map_dropLast, ← List.map_reverse, dropWhile_codes]
+theorem map_popLeadBy {α β : Type} (f : α → β) (p : α → Bool) (q : β → Bool) (hpq : ∀ x, q (f x) = p x) :
+    ∀ (l : List α), (popLeadBy p l).map f = popLeadBy q (l.map f)
+  | [] => rfl
+  | [b] => by simp [popLeadBy_single]
+  | b :: c :: r => by
+    rw [popLeadBy_cons2, List.map_cons, List.map_cons, popLeadBy_cons2, hpq]
+    split
+    · have := map_popLeadBy f p q hpq (c :: r)
+      simpa using this
+    · simp
 
-/-- on a child list with good codes `_stripws_parenthesis` does not raise, and what it returns has a non-whitespace child -/
+theorem map_trimAfterFirstBy {α β : Type} (f : α → β) (p : α → Bool) (q : β → Bool) (hpq : ∀ x, q (f x) = p x) (l : List α) :
+    (trimAfterFirstBy p l).map f = trimAfterFirstBy q (l.map f) := by
+  cases l with
+  | nil => rfl
+  | cons a tl => simp [trimAfterFirstBy, map_popLeadBy f p q hpq]
+
+theorem map_trimInsideBy {α β : Type} (f : α → β) (p : α → Bool) (q : β → Bool) (hpq : ∀ x, q (f x) = p x) (l : List α) :
+    (trimInsideBy p l).map f = trimInsideBy q (l.map f) := by
+  unfold trimInsideBy trimBeforeLastBy
+  rw [List.map_reverse, map_trimAfterFirstBy f p q hpq, List.map_reverse, map_trimAfterFirstBy f p q hpq]
+
+theorem any_nonws_of_del {l' l : List FNode} (h : Del FNode.isWhitespace l' l) :
+    l'.any (fun k => !k.isWhitespace) = l.any (fun k => !k.isWhitespace) := by
+  induction h with
+  | nil => rfl
+  | keep _ ih => simp [ih]
+  | drop hx _ ih => simp [ih, hx]
+
+theorem any_nonws_of_map {a b : List FNode} (h : a.map FNode.isWhitespace = b.map FNode.isWhitespace) :
+    a.any (fun k => !k.isWhitespace) = b.any (fun k => !k.isWhitespace) := by
+  have h1 : ∀ (m : List FNode), m.any (fun k => !k.isWhitespace) = (m.map FNode.isWhitespace).any (fun b => !b) := by
+    intro m; induction m with
+    | nil => rfl
+    | cons k m ih => simp [ih]
+  rw [h1, h1, h]
+
+/-- the codes of the list after the two loops, reversed: what `trimPenGroup` looks at -/
+theorem codes_reverse (ks : List FNode) :
+    (trimInsideBy (· == 0) (ks.map wsCode)).reverse = ((trimInsideBy FNode.isWhitespace ks).reverse).map wsCode := by
+  rw [List.map_reverse, map_trimInsideBy wsCode FNode.isWhitespace (· == 0) wsCode_zero]
+
+/-- on a child list with good codes `_stripws_parenthesis` does not raise, and "has a non-whitespace child" is unchanged -/
 theorem stripwsParenthesis_ok (ks : List FNode) (h : parenCodesOK (ks.map wsCode) = true) :
-    ∃ out, stripwsParenthesis ks = .ok out ∧ out.any (fun k => !k.isWhitespace) = true := by
-  unfold stripwsParenthesis
-  cases ks with
-  | nil => simp [parenCodesOK] at h
-  | cons first tl =>
-    simp only [List.map_cons, parenCodesOK, dropWhile_codes] at h
-    simp only
-    cases hdw : tl.dropWhile FNode.isWhitespace with
-    | nil => rw [hdw] at h; simp at h
-    | cons t1 tl1 =>
-      rw [hdw] at h
-      simp only [List.map_cons] at h
-      have hrc := revdrop_codes (first :: t1 :: tl1)
-      simp only [List.map_cons] at hrc
-      rw [hrc] at h
-      simp only
-      cases hrev : (dropTrailingWs (first :: t1 :: tl1).dropLast).reverse with
-      | nil => rw [hrev] at h; simp at h
-      | cons pen revInit =>
-        rw [hrev] at h
-        simp only [List.map_cons, bne_iff_ne, ne_eq] at h
-        have hpen := dropTrailingWs_last_not_ws _ pen revInit hrev
-        have fin : ∀ (pen' last : FNode), pen'.isWhitespace = false →
-            (stripwsDefault (revInit.reverse ++ [pen', last])).any (fun k => !k.isWhitespace) = true := by
-          intro pen' last hp
-          unfold stripwsDefault
-          rw [any_nonws_default]
-          simp [hp]
-        cases pen with
-        | tok tt v => exact ⟨_, rfl, fin _ _ hpen⟩
-        | grp c cv gks =>
-          simp only
-          have hany : gks.any (fun k => !k.isWhitespace) = true := by
-            simp only [wsCode] at h
-            by_cases hg : gks.any (fun k => !k.isWhitespace) = true
-            · exact hg
-            · simp [hg] at h
-          cases hg : dropTrailingWs gks with
-          | nil => exact absurd hg (dropTrailingWs_ne_nil gks hany)
-          | cons g0 grest => exact ⟨_, rfl, fin _ _ rfl⟩
+    ∃ out, stripwsParenthesis ks = .ok out ∧
+      out.any (fun k => !k.isWhitespace) = ks.any (fun k => !k.isWhitespace) := by
+  unfold parenCodesOK at h
+  rw [codes_reverse] at h
+  have fin : ∀ l3, trimPenGroup (trimInsideBy FNode.isWhitespace ks) = .ok l3 →
+      ∃ out, stripwsParenthesis ks = .ok out ∧ out.any (fun k => !k.isWhitespace) = ks.any (fun k => !k.isWhitespace) := by
+    intro l3 hl3
+    refine ⟨stripwsDefault l3, by unfold stripwsParenthesis; rw [hl3], ?_⟩
+    unfold stripwsDefault
+    rw [any_nonws_default, any_nonws_of_map (map_ws_trimPenGroup _ _ hl3), any_nonws_of_del (trimInsideBy_del _ ks)]
+  cases hr : (trimInsideBy FNode.isWhitespace ks).reverse with
+  | nil => exact fin _ (by unfold trimPenGroup; rw [hr])
+  | cons last r1 =>
+    cases r1 with
+    | nil => exact fin _ (by unfold trimPenGroup; rw [hr])
+    | cons pen revInit =>
+      rw [hr] at h
+      simp only [List.map_cons, bne_iff_ne, ne_eq] at h
+      cases pen with
+      | tok tt v => exact fin _ (by unfold trimPenGroup; rw [hr])
+      | grp c cv gks =>
+        have hany : gks.any (fun k => !k.isWhitespace) = true := by
+          simp only [wsCode] at h
+          by_cases hg : gks.any (fun k => !k.isWhitespace) = true
+          · exact hg
+          · simp [hg] at h
+        cases hg : dropTrailingWs gks with
+        | nil => exact absurd hg (dropTrailingWs_ne_nil gks hany)
+        | cons g0 grest =>
+          exact fin (revInit.reverse ++ [.grp c cv (g0 :: grest), last]) (by unfold trimPenGroup; rw [hr]; simp only [hg])
 
 theorem any_nonws_dropWsBeforeComma : ∀ (l : List FNode),
     (dropWsBeforeComma l).any (fun k => !k.isWhitespace) = l.any (fun k => !k.isWhitespace)
@@ -206,30 +233,7 @@ theorem stripwsLevel_ok (d : Nat) (c : Cls) (ks : List FNode)
     split
     · exact ⟨_, rfl, by unfold stripwsIdentifierList stripwsDefault; rw [any_nonws_default, any_nonws_dropWsBeforeComma]⟩
     · simp only [bne_self_eq_false, Bool.false_or] at h
-      obtain ⟨out, ho, ha⟩ := stripwsParenthesis_ok ks h
-      refine ⟨out, ho, ?_⟩
-      rw [ha]
-      -- the input has a non-whitespace child as well: the codes say so
-      have : ks.any (fun k => !k.isWhitespace) = true := by
-        rw [any_nonws_codes]
-        cases hk : ks.map wsCode with
-        | nil => rw [hk] at h; simp [parenCodesOK] at h
-        | cons f tl =>
-          rw [hk] at h
-          simp only [parenCodesOK] at h
-          cases hdw : tl.dropWhile (· == 0) with
-          | nil => rw [hdw] at h; simp at h
-          | cons t1 tl1 =>
-            have hmem : t1 ∈ tl := by
-              have : t1 ∈ tl.dropWhile (· == 0) := by rw [hdw]; exact List.mem_cons_self
-              exact (List.dropWhile_sublist _).subset this
-            have ht1 : (t1 == 0) = false := by
-              have := dropWhile_head_not (fun c : Nat => c == 0) tl t1 (by rw [hdw]; rfl)
-              exact this
-            simp only [List.any_cons, Bool.or_eq_true, List.any_eq_true]
-            right
-            exact ⟨t1, hmem, by simpa using ht1⟩
-      exact this.symm
+      exact stripwsParenthesis_ok ks h
     · exact ⟨_, rfl, by unfold stripwsDefault; rw [any_nonws_default]⟩
   obtain ⟨out, ho, ha⟩ := hd
   rw [ho]
@@ -351,54 +355,46 @@ theorem stripWhitespace_total (fuel : Nat) (n : FNode) (hs : FilterSafe.stripws 
     (h : stripWhitespace fuel n = .error e) : e = .recursionError :=
   (stripws_node n fuel 0 hs).2 e h
 
-/-- the domain is exact at the level of one parenthesis: outside it `_stripws_parenthesis` raises `IndexError` -/
+/-- the domain is exact at the level of one parenthesis: outside it `_stripws_parenthesis` raises `IndexError`
+(`tokens[-2].tokens[-1]` on the emptied child list of a whitespace-only group) -/
 theorem stripwsParenthesis_fails (ks : List FNode) (h : parenCodesOK (ks.map wsCode) = false) :
     stripwsParenthesis ks = .error .indexError := by
-  unfold stripwsParenthesis
-  cases ks with
-  | nil => rfl
-  | cons first tl =>
-    simp only [List.map_cons, parenCodesOK, dropWhile_codes] at h
-    simp only
-    cases hdw : tl.dropWhile FNode.isWhitespace with
-    | nil => rfl
-    | cons t1 tl1 =>
-      rw [hdw] at h
-      simp only [List.map_cons] at h
-      have hrc := revdrop_codes (first :: t1 :: tl1)
-      simp only [List.map_cons] at hrc
-      rw [hrc] at h
-      simp only
-      cases hrev : (dropTrailingWs (first :: t1 :: tl1).dropLast).reverse with
-      | nil => rfl
-      | cons pen revInit =>
-        rw [hrev] at h
-        simp only [List.map_cons, bne_eq_false_iff_eq] at h
-        cases pen with
-        | tok tt v => simp only [wsCode] at h; split at h <;> cases h
-        | grp c cv gks =>
-          simp only
-          have hany : gks.any (fun k => !k.isWhitespace) = false := by
-            simp only [wsCode] at h
-            by_cases hg : gks.any (fun k => !k.isWhitespace) = true
-            · simp [hg] at h
-            · simpa using hg
-          have : dropTrailingWs gks = [] := by
-            obtain ⟨y, hy, _⟩ := dropTrailingWs_rest_ws gks
-            cases hd : dropTrailingWs gks with
-            | nil => rfl
-            | cons g0 gr =>
-              exfalso
-              have hl := dropTrailingWs_last_not_ws gks ((g0 :: gr).reverse.head (by simp)) ((g0 :: gr).reverse.tail)
-                (by rw [hd]; simp)
-              have hmem : (g0 :: gr).reverse.head (by simp) ∈ gks := by
-                rw [hy, hd]
-                apply List.mem_append_left
-                exact List.mem_reverse.mp (List.head_mem _)
-              have := List.any_eq_false.mp hany _ hmem
-              rw [hl] at this
-              simp at this
-          rw [this]
+  unfold parenCodesOK at h
+  rw [codes_reverse] at h
+  cases hr : (trimInsideBy FNode.isWhitespace ks).reverse with
+  | nil => rw [hr] at h; simp at h
+  | cons last r1 =>
+    cases r1 with
+    | nil => rw [hr] at h; simp at h
+    | cons pen revInit =>
+      rw [hr] at h
+      simp only [List.map_cons, bne_eq_false_iff_eq] at h
+      cases pen with
+      | tok tt v => simp only [wsCode] at h; split at h <;> cases h
+      | grp c cv gks =>
+        have hany : gks.any (fun k => !k.isWhitespace) = false := by
+          simp only [wsCode] at h
+          by_cases hg : gks.any (fun k => !k.isWhitespace) = true
+          · simp [hg] at h
+          · simpa using hg
+        have hd : dropTrailingWs gks = [] := by
+          obtain ⟨y, hy, _⟩ := dropTrailingWs_rest_ws gks
+          cases hd : dropTrailingWs gks with
+          | nil => rfl
+          | cons g0 gr =>
+            exfalso
+            have hl := dropTrailingWs_last_not_ws gks ((g0 :: gr).reverse.head (by simp)) ((g0 :: gr).reverse.tail)
+              (by rw [hd]; simp)
+            have hmem : (g0 :: gr).reverse.head (by simp) ∈ gks := by
+              rw [hy, hd]
+              apply List.mem_append_left
+              exact List.mem_reverse.mp (List.head_mem _)
+            have := List.any_eq_false.mp hany _ hmem
+            rw [hl] at this
+            simp at this
+        unfold stripwsParenthesis trimPenGroup
+        rw [hr]
+        simp only [hd]
 
 /-! ## `AlignedIndentFilter` -/
 
@@ -612,11 +608,15 @@ theorem aCaseLoop_ok (ch : Text) (st : ASt) (maxW : Nat) (tl0 : TL) :
       exact List.mem_of_mem_drop hi
 
 
+/-- the entry for the `END` child, if there is one -/
+def endItems (endTok : Option (Nat × FNode)) : List (Option TL × Option (Nat × FNode)) :=
+  (endTok.map fun e => ((none : Option TL), some e)).toList
+
 theorem stmts_ok (endTok : Option (Nat × FNode)) :
     ∀ (cases : List (Option TL × TL)), (∀ cv ∈ cases, ∃ x, aCaseStmtOf cv = .ok x) →
-      ∃ xs, aCaseStmts endTok cases = .ok (xs ++ [(none, endTok)]) ∧ xs.length = cases.length ∧
+      ∃ xs, aCaseStmts endTok cases = .ok (xs ++ endItems endTok) ∧ xs.length = cases.length ∧
         ∀ it ∈ xs, ∃ cv ∈ cases, aCaseStmtOf cv = .ok it
-  | [], _ => ⟨[], by simp [aCaseStmts], rfl, by simp⟩
+  | [], _ => ⟨[], by cases endTok <;> rfl, rfl, by simp⟩
   | cv :: rest, h => by
     obtain ⟨x, hx⟩ := h cv List.mem_cons_self
     obtain ⟨xs, hxs, hlen, hall⟩ := stmts_ok endTok rest (fun c hc => h c (List.mem_cons_of_mem _ hc))
@@ -660,6 +660,21 @@ theorem aCase_ok (ch : Text) (st : ASt) (ks : List FNode) (hs : alignedCaseOK ks
     simp only [Bool.and_eq_true] at hs
     obtain ⟨⟨hitems, htags⟩, hend⟩ := hs
     simp only
+    -- `max(condition_width)` has something to work on
+    have hmax : (cases.isEmpty && ((tagAll ks).find? (fun e => e.2.matchKw "END")).isNone) = false := by
+      cases hce : cases.isEmpty with
+      | false => rfl
+      | true =>
+        rw [hce] at hend
+        simp only [Bool.not_true, Bool.false_or, List.any_eq_true] at hend
+        obtain ⟨e, he, hm⟩ := hend
+        cases hf : (tagAll ks).find? (fun e => e.2.matchKw "END") with
+        | some x => rfl
+        | none =>
+          have := List.find?_eq_none.mp hf e he
+          simp [hm] at this
+    rw [hmax]
+    simp only [Bool.false_eq_true, if_false]
     have hf : ∀ cv ∈ cases, ∃ x, aCaseStmtOf cv = .ok x := by
       intro cv hcv
       have := List.all_eq_true.mp hitems cv hcv
@@ -682,7 +697,7 @@ theorem aCase_ok (ch : Text) (st : ASt) (ks : List FNode) (hs : alignedCaseOK ks
     rw [hxs]
     simp only
     have hloop : ∃ tl', aCaseLoop ch st ((cases.map fun cv => condWidth cv.1).foldl max 0) 0 (tagAll ks)
-        (xs ++ [(none, (tagAll ks).find? (fun e => e.2.matchKw "END"))]) = .ok tl' := by
+        (xs ++ endItems ((tagAll ks).find? (fun e => e.2.matchKw "END"))) = .ok tl' := by
       apply aCaseLoop_ok ch st _ (tagAll ks) _ 0 (tagAll ks) (tagPresent_refl_sup _)
       · intro it hit
         rcases List.mem_append.mp hit with h1 | h1
@@ -713,36 +728,34 @@ theorem aCase_ok (ch : Text) (st : ASt) (ks : List FNode) (hs : alignedCaseOK ks
               rw [List.getLast?_eq_some_getLast (by simp)]; rfl
             rw [this]
             exact List.getLast_mem _
-        · simp only [List.mem_singleton] at h1
-          rw [h1]
-          refine ⟨?_, by intro c0 cr h; cases h⟩
-          intro t n h
-          have hmem := List.mem_of_find?_eq_some h
-          rw [tagPresent_any]
-          exact List.any_eq_true.mpr ⟨(t, n), hmem, by simp⟩
-      · left; rfl
-      · intro it hit
-        cases xs with
-        | nil => simp at hit
-        | cons x0 xr =>
-          simp only [List.cons_append, List.drop_one, List.tail_cons] at hit
-          rcases List.mem_append.mp hit with h1 | h1
-          · obtain ⟨cv, hcv, hfc⟩ := hall it (List.mem_cons_of_mem _ h1)
-            obtain ⟨c, v⟩ := cv
-            obtain ⟨_, e, h2e, _⟩ := aCaseStmtOf_ok c v it hfc
-            rw [h2e]; simp
-          · simp only [List.mem_singleton] at h1
+        · -- the END entry
+          cases hfe : (tagAll ks).find? (fun e => e.2.matchKw "END") with
+          | none => rw [hfe] at h1; simp [endItems] at h1
+          | some e =>
+            rw [hfe] at h1
+            simp only [endItems, Option.map_some, Option.toList_some, List.mem_singleton] at h1
             rw [h1]
-            simp only [ne_eq]
-            have hne : cases.isEmpty = false := by
-              cases cases with
-              | nil => simp at hlen
-              | cons a b => rfl
-            rw [hne, Bool.false_or, List.any_eq_true] at hend
-            obtain ⟨e, he, hm⟩ := hend
-            intro hnone
-            have := List.find?_eq_none.mp hnone e he
-            simp [hm] at this
+            refine ⟨?_, by intro c0 cr h; cases h⟩
+            intro t n h
+            injection h with h
+            have hmem := List.mem_of_find?_eq_some hfe
+            rw [tagPresent_any]
+            exact List.any_eq_true.mpr ⟨e, hmem, by rw [h]; simp⟩
+      · left; rfl
+      · -- every entry has a token now
+        intro it hit
+        have hit' : it ∈ xs ++ endItems ((tagAll ks).find? (fun e => e.2.matchKw "END")) := List.mem_of_mem_drop hit
+        rcases List.mem_append.mp hit' with h1 | h1
+        · obtain ⟨cv, hcv, hfc⟩ := hall it h1
+          obtain ⟨c, v⟩ := cv
+          obtain ⟨_, e, h2e, _⟩ := aCaseStmtOf_ok c v it hfc
+          rw [h2e]; simp
+        · cases hfe : (tagAll ks).find? (fun e => e.2.matchKw "END") with
+          | none => rw [hfe] at h1; simp [endItems] at h1
+          | some e =>
+            rw [hfe] at h1
+            simp only [endItems, Option.map_some, Option.toList_some, List.mem_singleton] at h1
+            rw [h1]; simp
     obtain ⟨tl', htl'⟩ := hloop
     rw [htl']
     exact ⟨_, rfl⟩
@@ -1706,64 +1719,22 @@ theorem runStmtObjs_total (fuel : Nat) : ∀ (objs : List StmtObj) (n : FNode) (
         rw [← h]; exact runStmtObjs_total fuel fs n' e2 (h2 n' f' hp) hr
       | ok r2 => rw [hr] at h; cases h
 
-/-! ## bridge to the grouping model: delimited parentheses are inside the `strip_whitespace` domain -/
+/-! ## bridge to the grouping model -/
 
-theorem dropWhile_zero_mem (l : List Nat) (x : Nat) (r : List Nat) (h : l.dropWhile (· == 0) = x :: r) :
-    x ≠ 0 ∧ ∀ y ∈ x :: r, y ∈ l := by
-  constructor
-  · have := dropWhile_head_not (fun c : Nat => c == 0) l x (by rw [h]; rfl)
-    simpa using this
-  · intro y hy
-    have : y ∈ l.dropWhile (· == 0) := by rw [h]; exact hy
-    exact (List.dropWhile_sublist _).subset this
-
-/-- if the child list of a parenthesis is `open :: mid ++ [close]` with non-whitespace leaves `open`/`close` (codes 1) and no
-child of `mid` is a group without a non-whitespace child (code 2), `_stripws_parenthesis` is inside its domain.  This is the
-shape `_group_matching` builds and C09 (`bracket_groups_final`) preserves, with `close` possibly followed by comment groups
-(code 1 as well). -/
-theorem parenCodesOK_of_delims (o c : Nat) (mid : List Nat) (ho : o = 1) (hc : c = 1) (hmid : ∀ x ∈ mid, x ≠ 2) :
-    parenCodesOK (o :: mid ++ [c]) = true := by
-  subst ho hc
-  simp only [List.cons_append, parenCodesOK]
-  cases hd : (mid ++ [1]).dropWhile (· == 0) with
-  | nil =>
-    exfalso
-    have : (1 : Nat) ∈ (mid ++ [1]).dropWhile (· == 0) := by
-      have hsplit := List.takeWhile_append_dropWhile (p := fun c : Nat => c == 0) (l := mid ++ [1])
-      have hmem : (1 : Nat) ∈ mid ++ [1] := by simp
-      rw [← hsplit] at hmem
-      rcases List.mem_append.mp hmem with h1 | h1
-      · have := mem_takeWhile_sat (fun c : Nat => c == 0) _ _ h1
-        simp at this
-      · exact h1
-    rw [hd] at this; cases this
-  | cons t1 tl1 =>
-    simp only
-    obtain ⟨ht1, hsub⟩ := dropWhile_zero_mem _ t1 tl1 hd
-    cases hr : ((1 : Nat) :: t1 :: tl1).dropLast.reverse.dropWhile (· == 0) with
-    | nil =>
-      exfalso
-      -- `open` itself is in the reversed prefix and is not 0
-      have h1mem : (1 : Nat) ∈ ((1 : Nat) :: t1 :: tl1).dropLast.reverse := by
-        simp [List.dropLast]
-      have hsplit := List.takeWhile_append_dropWhile (p := fun c : Nat => c == 0) (l := ((1 : Nat) :: t1 :: tl1).dropLast.reverse)
-      rw [hr, List.append_nil] at hsplit
-      rw [← hsplit] at h1mem
-      have := mem_takeWhile_sat (fun c : Nat => c == 0) _ _ h1mem
-      simp at this
+/-- after repo commit 4e9e704 the only remaining way for `_stripws_parenthesis` to raise is a last-but-one child that is a
+group consisting of whitespace only; so a parenthesis none of whose children is such a group (code 2) is inside the domain.
+Bridging obligation for the grouping model: *no pass builds a group without a non-whitespace child*. -/
+theorem parenCodesOK_of_no2 (codes : List Nat) (h : ∀ x ∈ codes, x ≠ 2) : parenCodesOK codes = true := by
+  unfold parenCodesOK
+  have hmem : ∀ x ∈ (trimInsideBy (· == 0) codes).reverse, x ∈ codes :=
+    fun x hx => (trimInsideBy_del (· == 0) codes).mem x (List.mem_reverse.mp hx)
+  cases hr : (trimInsideBy (· == 0) codes).reverse with
+  | nil => rfl
+  | cons last r1 =>
+    cases r1 with
+    | nil => rfl
     | cons pen rest =>
       simp only [bne_iff_ne, ne_eq]
-      have hpen : pen ∈ ((1 : Nat) :: t1 :: tl1).dropLast.reverse.dropWhile (· == 0) := by rw [hr]; exact List.mem_cons_self
-      have hpen2 : pen ∈ ((1 : Nat) :: t1 :: tl1).dropLast := by
-        have := (List.dropWhile_sublist _).subset hpen
-        exact List.mem_reverse.mp this
-      have hpen3 : pen ∈ (1 : Nat) :: t1 :: tl1 := List.dropLast_subset _ hpen2
-      rcases List.mem_cons.mp hpen3 with rfl | h2
-      · decide
-      · have := hsub pen h2
-        rcases List.mem_append.mp this with h3 | h3
-        · exact hmid pen h3
-        · simp only [List.mem_singleton] at h3; rw [h3]; decide
-
+      exact h pen (hmem pen (by rw [hr]; simp))
 
 end Sql
